@@ -121,3 +121,25 @@ package utils
 // A-FIXED (fixed-offset zone): civil days are 86400 s long.
 //@ axiom #yearDay: forallint(a, l, pattern(civilYearDay(a, l)), civilYearDay(a, l) == 1 + div(a - civilYearStart(civilYear(a, l), l), 86400000000000))
 //@ axiom #addDays: forallint(a, l, d, pattern(civilAddDays(a, l, d)), civilAddDays(a, l, d) == a + d*86400000000000)
+
+// ---- error constructors never return nil ----
+
+//@ func fmt.Errorf
+//@ trusted "stdlib: returns a non-nil error"
+//@ pure
+//@ ensures result != nil
+
+//@ func errors.New
+//@ trusted "stdlib: returns a non-nil error"
+//@ pure
+//@ ensures result != nil
+
+//@ func github.com/pkg/errors.Wrap
+//@ trusted "pkg/errors: nil iff the wrapped error is nil"
+//@ pure
+//@ ensures (result == nil) == (err == nil)
+
+//@ func github.com/pkg/errors.New
+//@ trusted "pkg/errors: returns a non-nil error"
+//@ pure
+//@ ensures result != nil
